@@ -158,7 +158,7 @@ pub fn run(ctx: &Arc<Ctx>) {
     ctx.sample(serde_json::to_value(&c).unwrap());
 
     // E1: purity — every call's digest is that of its message alone, whatever preceded it
-    let depth = 3usize;
+    let depth = ctx.tier.pick(3usize, 4);
     let c2 = ctx.clone();
     let model = HistModel {
         batch: 64,
